@@ -219,13 +219,14 @@ class Session:
             self.raised = type(ex).__name__ + ": " + str(ex)[:80]
             res = []
         ev = self.log[start:]
+        self.last_events = ev
         dtlocal = bool(directives) and "dtlocal" in directives
         raw = dict(op=op, clsname=self.clsname, t0=fb[0], it0=fb[1], b0=fb[2], tsave=tsave,
                    tot=(stop or {}).get("tottime"), maxit=(stop or {}).get("maxit"),
                    caller=(float(f.time), f.it, f.data[0].tobytes()) == fb,
                    nit=self.solver.nit(), totnit=self.solver.totnit(), raised=self.raised,
                    res=[(float(r.time), r.it, r.data[0].tobytes()) for r in res], results=res,
-                   dtlocal=dtlocal)
+                   dtlocal=dtlocal, ev=ev, freqs_arg=sorted(int(mv.get("frequency", 10)) for mv in (monitors or {}).values()))
         # trajectory: the states presented at the TimeStep seam
         ts = [e for e in ev if e[0] == "ts"]
         raw["traj"] = [(e[1], e[2], e[3], e[4]) for e in ts]
@@ -391,3 +392,55 @@ def describe(raw):
                 maxit=raw["maxit"], nit=raw["nit"], res_times=[t for (t, _, _) in raw["res"]],
                 res_it=[i for (_, i, _) in raw["res"]], traj_t=[t for (t, _, _, _) in raw["traj"]],
                 tfin=raw["tfin"], raised=raw["raised"])
+
+
+def lattice(t):
+    """time in lattice units if it is exactly on the lattice, else None"""
+    x = t * UNIT
+    return int(x) if (math.isfinite(x) and x == int(x)) else None
+
+
+def trace_of(raws, froms, kind, prof, t0, tid):
+    """event trace of a script (list of raw calls made on one Session) in lattice units, or None when some time
+    is off the lattice (integrators whose time increments are not exact in floating point)"""
+    ids = IdSpace()
+    events = []
+    ok = True
+
+    def L(t):
+        nonlocal ok
+        v = lattice(t)
+        if v is None:
+            ok = False
+            return 0
+        return v
+
+    id0 = None
+    for r, frm in zip(raws, froms):
+        if id0 is None:
+            id0 = ids(r["b0"]) if frm == "f0" else None
+        events.append(dict(e="call", op=r["op"], **{"from": frm}, tsave=[L(t) for t in r["tsave"]],
+                           tot=L(r["tot"]) if r["tot"] is not None else -1,
+                           maxit=int(r["maxit"]) if r["maxit"] is not None else -1,
+                           freqs=r["freqs_arg"], id=ids(r["b0"]), t=L(r["t0"]), it=int(r["it0"])))
+        cur = None
+        for e in r["ev"]:
+            if e[0] == "ts":
+                events.append(dict(e="ts", t=L(e[1]), id=ids(e[2]), dt=L(e[3])))
+            elif e[0] == "sb":
+                cur = e
+            elif e[0] == "se" and cur is not None:
+                events.append(dict(e="step", t=L(cur[1]), id=ids(cur[2]), h=L(cur[3]), t2=L(e[1]), id2=ids(e[2])))
+                cur = None
+        itstart = r["totnit"] - r["nit"]
+        mon = []
+        for (f, its, mts, vals, typ) in r["mons"]:
+            for it_, t_ in zip(its, mts):
+                if r["op"] == "solve" or it_ >= itstart:
+                    mon.append(dict(f=int(f), it=int(it_), t=L(t_)))
+        mon.sort(key=lambda m: (m["it"], m["f"]))
+        events.append(dict(e="ret", nit=int(r["nit"]), totnit=int(r["totnit"]),
+                           res=[dict(t=L(t), it=int(i), id=ids(b)) for (t, i, b) in r["res"]], mon=mon))
+    if not ok or id0 is None:
+        return None
+    return dict(id=tid, kind=kind, prof=prof, t0=L(t0) if True else 0, id0=id0, events=events)
